@@ -276,6 +276,15 @@ def check_special(db, rep, rec, field, kind, f, key):
                     init = [i for i in f.get("inits", []) if i.get("member") == field]
                     if init and is_null(init[0]["e"]):
                         src_nulled = True
+        # ... or taken out of the source through the class's own release function, which clears the member on every path
+        for _, v, _how in st:
+            for x in facts.walk(v):
+                if x["k"] == "CXXMemberCallExpr" and x.get("callee"):
+                    r_ = cfg.receiver(x)
+                    h_ = db.fn(x["callee"])
+                    if r_ is not None and facts.strip_all(r_)["k"] == "DeclRefExpr" and facts.strip_all(r_).get("parm") and \
+                            h_ is not None and h_.get("body") and h_.get("rec") == f.get("rec") and clears_on_every_path(h_, field):
+                        src_nulled = True
         takes = any(param_field(f, v, field) or any(param_field(f, x, field) for x in facts.walk(v) if x["k"] == "MemberExpr")
                     or any(x["k"] == "CXXMemberCallExpr" for x in facts.walk(v)) for _, v, _ in st)
         if not src_nulled:
@@ -358,6 +367,17 @@ def check_special(db, rep, rec, field, kind, f, key):
         else:
             rep.ok("R1-special", key, site, "old value released or swapped into the source; source does not keep the moved pointer")
         return
+
+
+def clears_on_every_path(f, field):
+    """the member function leaves this->field null (assigned null, or swapped out) on every normal path"""
+    g = cfg.FnCFG(f)
+    nulls = []
+    for node, val, how in stores_to(f, field):
+        if (val is not None and is_null(val)) or how == "swap":
+            nulls.append(g.pos(node))
+    nulls = [q for q in nulls if q]
+    return bool(nulls) and g.reaches_exit_avoiding((g.entry, -1), nulls, normal_only=True) is None
 
 
 def with_source_helpers(db, f):
@@ -973,6 +993,13 @@ class _Tagged(object):
         if c0["k"] == "UnaryOperator" and c0.get("op") == "!":
             t = self.tag_test(c0["c"][0])
             return {"B": "S", "S": "B"}.get(t)
+        if c0["k"] == "CXXMemberCallExpr" and c0.get("callee") and not cfg.args(c0):
+            # a named predicate of this object (`uses_big_buffer()`): it tests what it returns
+            from vlib import cond as _cond
+            r_ = cfg.receiver(c0)
+            pe = _cond.predicate_return(self.db, c0["callee"])
+            if pe is not None and pe[0].get("rec") == self.rec and (r_ is None or strip(r_)["k"] == "CXXThisExpr"):
+                return self.tag_test(pe[1])
         return None
 
     def effects(self, f, e, st, depth):
